@@ -19,6 +19,8 @@ import (
 
 	"github.com/alphadose/haxmap"
 	kclock "k8s.io/utils/clock"
+
+	"github.com/dapr/kit/verifhook"
 )
 
 // Cache is an efficient cache with a TTL.
@@ -122,6 +124,7 @@ func (c *Cache[V]) Cleanup() {
 		}
 		return true
 	})
+	verifhook.Point("ttlcache.cleanup.afterSnapshot", c, keys)
 
 	c.m.Del(keys...)
 }
@@ -137,6 +140,7 @@ func (c *Cache[V]) Reset() {
 		keys = append(keys, k)
 		return true
 	})
+	verifhook.Point("ttlcache.reset.afterSnapshot", c, keys)
 
 	c.m.Del(keys...)
 }
